@@ -92,6 +92,9 @@ def suites(tier: str, seed: int) -> List[Suite]:
         order.cases.extend(cs)
     # the histories run in the long-lived worker processes (their caches are warm from the jobs before)
     hist.cases = SC.pmap(_hist_job, [(seed, i) for i in range(n_hist)])
+    # an unrelated site with more distinct recipes (170) than the compile cache holds (128), generated between two
+    # generations of the same tree: ~5 s per case
+    hist.cases += SC.gen_noise_history_cases(seed, 6 if tier == "quick" else 40)
     return [order, hist]
 
 
